@@ -24,6 +24,11 @@ REFKINDS_BASIC = ['succ_tok', 'succ_tok', 'succ_tok', 'succ_obj', 'alt_tok', 'er
 REFKINDS_ENGINE = ['disabled_msg', 'crashed_out', 'deployfail_err']
 
 
+LOOP_SUB = {'input_schema': {'root': 'SubIn', 'objects': {'SubIn': {'id': 'SubIn', 'properties': {'id': {'type': {'type_id': 'string'}, 'required': True}}}}},
+            'steps': {'w': {'kind': 'plugin', 'pstep': 'work', 'src': 'w', 'fields': {'input': tmap({'id': ref('input.id')})}}},
+            'outputs': {'success': tmap({'tok': ref('steps.w.outputs.success.tok'), 'n': ref('steps.w.outputs.success.n')})}}
+
+
 def mkref(kind, j):
     if kind == 'succ_tok':
         return ref('steps.%s.outputs.success.tok' % j)
@@ -45,6 +50,10 @@ def mkref(kind, j):
         return ref('steps.%s.crashed.error.output' % j)
     if kind == 'deployfail_err':
         return ref('steps.%s.deploy_failed.error.error' % j)
+    if kind == 'loop_data':
+        return ref('steps.%s.outputs.success.data' % j)
+    if kind == 'loop_failed':
+        return ref('steps.%s.failed.error' % j)
     raise ValueError(kind)
 
 
@@ -97,12 +106,35 @@ def gen_workflow(rng, profile):
     p_tag = profile.get('p_tag', 0.0)
     kinds = REFKINDS_BASIC + (REFKINDS_ENGINE if profile.get('engine_outputs') else [])
     profile = dict(profile, _ids=None)
+    loops = set()
+    subwfs = {}
     for i, s in enumerate(ids):
-        profile['_ids'] = ids[:i]
+        profile['_ids'] = [x for x in ids[:i] if x not in loops]
+        if i > 0 and not loops and rng.random() < profile.get('p_loop', 0.0):
+            # a loop step over a literal item list; its sub-workflow runs one scripted step per item
+            n_items = rng.randint(1, 3)
+            outs = [rng.choice(['success', 'success', 'success', 'error', 'crash']) for _ in range(n_items)]
+            fields = {'items': lit([{'id': '%s-i%d' % (s, k)} for k in range(n_items)]), 'parallelism': lit(rng.choice([1, 2]))}
+            plug = [x for x in ids[:i] if x not in loops]
+            if plug and rng.random() < 0.5:
+                fields['wait_for'] = ref('steps.%s.outputs.success' % rng.choice(plug))
+            wf['steps'][s] = {'kind': 'foreach', 'workflow': 'sub.yaml', 'fields': fields}
+            allok = all(o == 'success' for o in outs)
+            oc[s] = {'enabled': True, 'beh': 'success' if allok else 'failed'}
+            script.setdefault('w', {'exec': {'out': 'success'}, 'exec_by_id': {}})
+            for k, o in enumerate(outs):
+                script['w']['exec_by_id']['%s-i%d' % (s, k)] = {'out': o if o != 'crash' else 'success', 'crash': o == 'crash', 'delay_ms': rng.choice([0, 2, 6]), 'n': k}
+            subwfs['sub.yaml'] = LOOP_SUB
+            loops.add(s)
+            continue
         o = oc_plugin(rng, profile)
         fields = {}
         deps = {}
-        earlier = ids[:i]
+        earlier = [x for x in ids[:i] if x not in loops]
+        for lp in sorted(loops):
+            if rng.random() < 0.6:
+                # a consumer of the loop's result (or of its failure report)
+                pass
         nd = rng.randint(0, min(3, len(earlier) + 1)) if earlier else 0
         for d in range(nd):
             j = rng.choice(earlier)
@@ -121,6 +153,9 @@ def gen_workflow(rng, profile):
             deps['sums'] = tlist([mkref('succ_tok', a), mksum(rng, earlier, first=a)])
         if earlier and rng.random() < profile.get('p_sum', 0.3) * 0.5:
             deps['sum'] = mksum(rng, earlier)
+        for lp in sorted(loops):
+            if rng.random() < 0.6:
+                deps['loop'] = mkref(rng.choice(['loop_data', 'loop_data', 'loop_failed']), lp)
         inm = {'id': lit(s)}
         if deps:
             inm['deps'] = tmap(deps)
@@ -164,14 +199,15 @@ def gen_workflow(rng, profile):
         ex = {'out': {'crash': 'success'}.get(o['beh'], o['beh']), 'crash': o['beh'] == 'crash', 'delay_ms': rng.choice([0, 0, 1, 3, 8]), 'n': rng.randint(0, 50)}
         script[s] = {'deploy': {'fail': o['deploy'] == 'fail', 'delay_ms': rng.choice([0, 0, 2])}, 'exec': ex}
     # outputs
+    pids = [x for x in ids if x not in loops]
     def out_tree(kind_pool, must=None):
         kids = {}
-        profile['_ids'] = ids
-        if len(ids) >= 2 and rng.random() < profile.get('p_sum', 0.3):
-            a = rng.choice(ids)
-            kids['sums'] = tlist([mkref('succ_tok', a), mksum(rng, ids, first=a)])
+        profile['_ids'] = pids
+        if len(pids) >= 2 and rng.random() < profile.get('p_sum', 0.3):
+            a = rng.choice(pids)
+            kids['sums'] = tlist([mkref('succ_tok', a), mksum(rng, pids, first=a)])
         for d in range(rng.randint(1, 3)):
-            j = rng.choice(ids)
+            j = rng.choice(pids)
             if rng.random() < p_tag:
                 kids['t%d' % d] = mktag(rng, j, profile)
             else:
@@ -179,17 +215,23 @@ def gen_workflow(rng, profile):
         if must:
             kids['m'] = must
         return tmap(kids)
-    last = ids[-1]
+    last = pids[-1]
     wf['outputs']['success'] = out_tree(['succ_tok', 'succ_tok', 'succ_obj', 'succ_n'], mkref('succ_tok', last))
     if rng.random() < profile.get('p_multi', 0.6):
-        j = rng.choice(ids)
+        j = rng.choice(pids)
         wf['outputs']['failure'] = tmap({'why': mkref('err_reason', j)})
     if rng.random() < profile.get('p_multi', 0.6) * 0.5:
-        j = rng.choice(ids)
+        j = rng.choice(pids)
         wf['outputs']['other'] = tmap({'a': mkref('alt_tok', j)})
     if profile.get('engine_outputs') and rng.random() < 0.5:
-        j = rng.choice(ids)
+        j = rng.choice(pids)
         wf['outputs']['broken'] = tmap({'why': mkref(rng.choice(REFKINDS_ENGINE), j)})
+    for lp in sorted(loops):
+        wf['outputs']['success']['kids']['loop'] = mkref('loop_data', lp)
+        if rng.random() < 0.6:
+            wf['outputs']['loopfailed'] = tmap({'e': mkref('loop_failed', lp)})
+    if subwfs:
+        wf['_subwfs'] = subwfs
     return wf, oc, script, inp
 
 
